@@ -7,7 +7,9 @@ import (
 	"encoding/json"
 	"fmt"
 	"math"
+	"os"
 	"sync"
+	"sync/atomic"
 	"testing"
 
 	"github.com/bokysan/socketace/v2/internal/util/enc"
@@ -89,6 +91,77 @@ func (c *checker) check(gen string, in []byte) {
 	c.rec.Stat("bytes_roundtripped", int64(len(in)))
 }
 
+// firstUse: a fresh process whose very first uses of one codec happen on 16 goroutines at the same time (a server that
+// has just started and gets the first queries of several clients at once). Whatever a codec sets up lazily must be safe
+// for that. Each goroutine round-trips its own payload; the same payloads are round-tripped once more afterwards, one at a
+// time, and only what works alone is judged. A crash of the process (the runtime's "concurrent map writes") is reported
+// by the driver.
+func firstUse(rec *vcommon.Rec) {
+	ci := codecs[rec.Shard()%len(codecs)]
+	e, err := enc.FromCode(ci.code)
+	if err != nil {
+		rec.Inconclusive("first-use: FromCode failed", string(ci.code))
+		return
+	}
+	desc := map[string]interface{}{"family": "first-use-in-a-fresh-process", "codec": e.Name(), "goroutines": 16}
+	rec.Mark(desc)
+	const k = 16
+	payloads := make([][]byte, k)
+	for g := range payloads {
+		payloads[g] = make([]byte, 140)
+		vcommon.FillKeyed(uint64(rec.Seed())*977+uint64(g), int64(rec.Shard())*256, payloads[g])
+	}
+	// two kinds of process: the first ENCODES happen at once (and the decodes follow), or everything is encoded by one
+	// goroutine first and the first DECODES happen at once
+	decodeFirst := (rec.Shard()/len(codecs))%2 == 1
+	desc["first_concurrent_operation"] = map[bool]string{false: "encode", true: "decode"}[decodeFirst]
+	encoded := make([][]byte, k)
+	if decodeFirst {
+		for g := range encoded {
+			encoded[g] = e.Encode(payloads[g])
+		}
+	}
+	var arrived int32
+	var wg sync.WaitGroup
+	got := make([][]byte, k)
+	errs := make([]error, k)
+	for g := 0; g < k; g++ {
+		wg.Add(1)
+		go func(g int) {
+			defer wg.Done()
+			atomic.AddInt32(&arrived, 1)
+			for atomic.LoadInt32(&arrived) < k { // spin: all of them start within the same microsecond
+			}
+			if decodeFirst {
+				got[g], errs[g] = e.Decode(encoded[g])
+			} else {
+				got[g], errs[g] = e.Decode(e.Encode(payloads[g]))
+			}
+		}(g)
+	}
+	wg.Wait()
+	bad := 0
+	first := ""
+	for g := 0; g < k; g++ {
+		alone, aerr := e.Decode(e.Encode(payloads[g]))
+		if aerr != nil || !bytes.Equal(alone, payloads[g]) {
+			continue // does not round-trip alone: the sequential families' business
+		}
+		if errs[g] != nil || !bytes.Equal(got[g], payloads[g]) {
+			bad++
+			if first == "" {
+				first = fmt.Sprintf("goroutine %d: err=%v, decoded %d bytes", g, errs[g], len(got[g]))
+			}
+		}
+	}
+	rec.Case(fmt.Sprintf("first-use/%s/%d", e.Name(), rec.Shard()), true)
+	rec.Stat("first_use_processes:"+e.Name(), 1)
+	rec.Stat("bytes_roundtripped", int64(k*140))
+	if bad > 0 {
+		rec.Violation(e.Name()+":first-concurrent-use-differs-from-use-alone", desc, map[string]interface{}{"goroutines_with_a_wrong_result": bad, "first": first})
+	}
+}
+
 func clip(b []byte) []byte {
 	if len(b) > 128 {
 		return b[:128]
@@ -100,6 +173,10 @@ func TestVerifC08(t *testing.T) {
 	rec := vcommon.Open()
 	defer rec.Close()
 
+	if os.Getenv("VERIF_C08_MODE") == "first-use" {
+		firstUse(rec)
+		return
+	}
 	if rec.Replay != nil {
 		var d caseDesc
 		if err := json.Unmarshal(rec.Replay, &d); err != nil {
